@@ -812,3 +812,47 @@ class DatasetConstruct(Contract):
 
     def canaries(self, S, case, env, result):
         yield "x-axis-is-empty", S.n(result.axes["x"].values) == 0
+
+
+class DatasetDimsSetter(Contract):
+    """ds.dims = newnames for new names that PERMUTE or SHIFT the existing ones (a new name may be the current name of another
+    axis): afterwards the dataset's dimensions are exactly the assigned names in order, every axis object keeps its labels and
+    its position (only names change), every variable sees the new name of each of its axes (same objects), the invariant
+    holds.  [C13]"""
+    target = "dimarray.dataset:Dataset.dims"
+    props = ("C13",)
+
+    def cases(self, tier):
+        for state, new in (("a(x),b(x,y)", ("y", "x")), ("a(x,y)", ("y", "x")), ("a(x),b(x,y)", ("y", "w")), ("a(x),b(x,y)", ("w", "x")),
+                           ("a(x),b(x,y),c(y)", ("y", "x")), ("a(x),b(x,y)", ("x", "y")), ("a(x),b(x,y)", ("u", "v"))):
+            yield {"name": "%s|dims=%s" % (state, ",".join(new)), "state": state, "new": list(new)}
+
+    bound_names = ("ds.x.n", "ds.y.n")
+
+    def setup(self, S, case):
+        ds, labels = make_dataset(S, case["state"])
+        return {"ds": ds, "labels": labels, "snap": snapshot_ds(S, ds),
+                "var_axes": {k: list(dict.__getitem__(ds, k).axes) for k in dict.keys(ds)}}
+
+    def call(self, fn, env):
+        env["ds"].dims = tuple(env["case"]["new"])
+        return env["ds"]
+
+    def post(self, S, case, env, result):
+        ds, snap, new = env["ds"], env["snap"], case["new"]
+        yield "dimensions-are-exactly-the-assigned-names", [ax.name for ax in ds.axes] == list(new)
+        yield "axis-objects-keep-their-position", len(ds.axes) == len(snap["axes"]) and all(a is b for a, b in zip(ds.axes, snap["axes"]))
+        for i, ax in enumerate(snap["axes"]):
+            old = snap["labels"][snap["dims"][i]]
+            yield "labels-of-axis-%d-unchanged" % i, S.land(S.n(ax.values) == S.n(old), S.forall(0, S.n(old), lambda k, ax=ax, old=old: S.implies(
+                k < S.n(ax.values), lambda: S.at(ax.values, k) == S.at(old, k))))
+        rename = dict(zip(snap["dims"], new))
+        for k, axes in env["var_axes"].items():
+            v = dict.__getitem__(ds, k)
+            olddims = [d for kk, dd in STATES[case["state"]] if kk == k for d in dd]
+            yield "variable-%s-sees-the-new-names-on-the-same-axis-objects" % k, tuple(v.dims) == tuple(rename[d] for d in olddims) and all(a is b for a, b in zip(v.axes, axes))
+        for c in ds_inv(S, ds):
+            yield c
+
+    def canaries(self, S, case, env, result):
+        yield "first-axis-is-empty", S.n(env["ds"].axes[0].values) == 0
